@@ -4,7 +4,7 @@ import json
 
 from props.common import col, lit
 
-WORDS = ['alpha', 'beta', 'Gamma', 'delta', 'x', '', ' pad ', 'a b', 'ERROR', 'warn', 'é', '10', 'true', 'null']
+WORDS = ['alpha', 'beta', 'Gamma', 'delta', 'x', '', ' pad ', 'a b', 'ERROR', 'warn', 'é', '10', 'true', 'null', "O'Brien", 'say "hi"', 'back\\slash']
 NUMSTR = ['5', '-5', '1e3', '1,000', '-1,000', '3.25', ' 42 ', '$7', '0x10', '1e400', '007', '+8', '.5', '5.', 'nan', 'inf', '12abc', '']
 KEYS = ['a', 'b', 'c']
 EDGE_INTS = [0, 1, -1, 2, 7, 10, 100, -100, 2**31, -2**31, 2**53, 2**53 + 1, -2**53 - 1, 2**63 - 1, -2**63, 123456789012]
@@ -76,6 +76,8 @@ def gen_row(rng, i, rich=True):
     row = {'id': i}
     if rng.random() < 0.95:
         row['k'] = rng.choice(KEYS) if rng.random() < 0.9 else scalar(rng, rich)
+    if rng.random() < 0.08:
+        row['big'] = rng.choice([9223372036854775807, 9223372036854775808, 9223372036854775806, 18446744073709551615])
     if rng.random() < 0.9:
         row['g'] = rng.choice([1, 2, 2, 3, None, 'a'])
     if rng.random() < 0.9:
@@ -112,7 +114,7 @@ def jtext(obj, rng=None):
 
 
 NUM_COLS = ['a', 'b', 'g', 'id']
-ANY_COLS = ['a', 'b', 'g', 'id', 'k', 's', 't', 'flag', 'arr', 'obj', 'nope']
+ANY_COLS = ['a', 'b', 'g', 'id', 'k', 's', 't', 'flag', 'arr', 'obj', 'nope', 'big']
 
 
 def col_ref(rng, cols=None):
@@ -295,8 +297,11 @@ def inline_stage(rng, cols=None, after_agg=False):
         return ('limit', rng.choice([1, 2, 3, 5, -1, -2, -4, None]))
     if r < 0.84:
         return ('total', num_expr(rng, 1, cols or NUM_COLS), rng.choice([None, 'run']))
-    if r < 0.92:
+    if r < 0.90:
         return ('split', rng.choice([None, ' ', 'a', ', ']), col_ref(rng, ['s', 't', 'k']), rng.choice([None, col('parts')]))
+    if r < 0.95 and cols is None:
+        # timestamps come in any order: the slice of a row depends on that row alone
+        return ('timeslice', DATE_EXPR, rng.choice([60, 300, 3600, 86400]) * 10**9, rng.choice([None, 'slice']))
     return ('json', col_ref(rng, ['s', 't', 'nope']))
 
 
